@@ -494,3 +494,39 @@ func H_C06_markertab(form, _ int) {
 	check(vsame(normHTML(got), normHTML([]byte(want))), "C06.marker-tab")
 	vdigest(got)
 }
+
+// H_C06_codetrail(form, _): "Blank lines preceding or following an indented code block
+// are not included in it" (CommonMark 0.30 section 4.4), whatever whitespace the blank
+// lines are made of. The document is, behind container prefix P (form 0 none, 1 "> ",
+// 2 " > ", 3 a "- " list item):
+//   P "    a"  /  P + three bytes over {space, tab}  /  P  /  P "x"
+// and must render as the code block "a" followed by the paragraph "x".
+func H_C06_codetrail(form, _ int) {
+	first := []string{"", "> ", " > ", "- "}[form]
+	cont := []string{"", "> ", " > ", "  "}[form]
+	blank := []string{"", ">", " >", ""}[form]
+	var doc []byte
+	doc = append(doc, first+"    a\n"+cont...)
+	for i := 0; i < 3; i++ {
+		c := nondetByte()
+		assume(classOK(c, 'S'))
+		doc = append(doc, c)
+	}
+	doc = append(doc, "\n"+blank+"\n"+cont+"x\n"...)
+	inner := "<pre><code>a\n</code></pre><p>x</p>"
+	want := inner
+	switch form {
+	case 1, 2:
+		want = "<blockquote>" + inner + "</blockquote>"
+	case 3:
+		want = "<ul><li>" + inner + "</li></ul>"
+	}
+	blocks, refs := Parse(cloneBytes(doc))
+	got := renderWith(&HTMLRenderer{ReferenceMap: refs}, blocks)
+	if !vsame(normHTML(got), normHTML([]byte(want))) {
+		vnote("doc=" + string(doc))
+		vnote("got=" + string(normHTML(got)))
+	}
+	check(vsame(normHTML(got), normHTML([]byte(want))), "C06.code-trailing-blank")
+	vdigest(got)
+}
